@@ -2,11 +2,13 @@
 import common as C
 import oracles as O
 from props import _filter as FL
+import pluginstream as PS
 
 PID = 'C03'
 TRUSTED = ['Tier H model coq/Model/{Axis,Filter}.v tied to /repo by vm_compute correspondence on every run (harness/filterstream.py)',
            'modelled, not verified: binary64 rounding (model is exact; numbers compared within 1e-9, decisions away from borders by >= 5e-4)',
-           'firmware behaviour = the reference printer']
+           'firmware behaviour = the reference printer',
+           'plugin layer (hooks, @-command action table and scripts from the settings): `plugin` vm_compute correspondence against the real ExcludeRegionPlugin (harness/pluginstream.py, Model/Plugin.v)']
 ASSUMPTIONS = ['no homing, G92 X/Y/Z or M206 while an episode is open (as the property states)']
 KW = dict()
 
@@ -20,7 +22,9 @@ def _kw():
 def correspondence(ctx):
     kw, styles = _kw()
     acc = (lambda p: p['style'] in styles) if styles else None
-    return FL.correspondence(ctx, PID, kw, 60, 1500, accept=acc)
+    r = FL.correspondence(ctx, PID, kw, 60, 1500, accept=acc)
+    # the same filter as OctoPrint drives it: through the plugin object's hooks, with the @-command actions and scripts taken from the settings
+    return PS.merge_into(r, ctx, PID.lower() + 'p', 10, 300, extra=[PS.atc_history(ctx.rng) for _ in range(ctx.n(15, 300))])
 
 
 def oracle(ctx, budget=1, replay=None, hints=None):
